@@ -2,6 +2,7 @@ package main
 
 import (
 	"fmt"
+	"go/types"
 	"go/token"
 	"strings"
 )
@@ -69,4 +70,38 @@ func faddrTag(name string) int {
 	}
 	faddrTags[name] = h
 	return h
+}
+
+// ---- channel tokens (`flag chan_tokens <ghostvar>:<element type>`) ----
+//
+// Channels of the given element type are treated as holders of tokens (a one-slot channel that carries a shared
+// object, say): a receive increments the ghost counter, a send decrements it. A contract can then state, with
+// always_ensures, that every token taken is handed back on every exit, panics included.
+
+func (t *tr) chanToken(chanT types.Type, delta int64) {
+	if t.u == nil || t.u.Contract == nil || t.cur == nil {
+		return
+	}
+	spec := t.u.Contract.Flags["chan_tokens"]
+	if spec == "" {
+		return
+	}
+	ct, ok := chanT.Underlying().(*types.Chan)
+	if !ok {
+		return
+	}
+	for _, item := range strings.Split(spec, ",") {
+		kv := strings.SplitN(strings.TrimSpace(item), ":", 2)
+		if len(kv) != 2 || typeKey(ct.Elem()) != strings.TrimSpace(kv[1]) {
+			continue
+		}
+		for _, d := range t.V.CS.Decls {
+			if d.Kind == "ghostvar" && d.Name == strings.TrimSpace(kv[0]) {
+				gv := t.ghostVar(d)
+				t.assign(gv, add(t.read(gv), intLit(delta)))
+				return
+			}
+		}
+		t.errorf(token.NoPos, "chan_tokens: unknown ghostvar %s", kv[0])
+	}
 }
